@@ -19,7 +19,17 @@ HARNESS_DIR = os.path.join(VERIF, 'harness')
 SCRATCH_ROOT = os.environ.get('VERIF_SCRATCH_ROOT', '/var/tmp/uflow-verif')
 CACHE = os.environ.get('VERIF_CACHE', '/var/tmp/uflow-verif-cache')
 KANI_HOME = os.path.expanduser('~/.kani/kani-0.68.0')
-NCPU = int(os.environ.get('VERIF_JOBS', str(min(8, os.cpu_count() or 4))))
+def _default_jobs():
+    # memory-bound: the heaviest obligations peak at about 10 GB of RSS in CBMC; one job per 8 GB of RAM, at most 8
+    try:
+        kb = int([l for l in open('/proc/meminfo') if l.startswith('MemTotal')][0].split()[1])
+        by_mem = max(2, kb // (8 * 1024 * 1024))
+    except Exception:
+        by_mem = 4
+    return min(8, os.cpu_count() or 4, by_mem)
+
+
+NCPU = int(os.environ.get('VERIF_JOBS', str(_default_jobs())))
 # CBMC's symbolic execution propagates constants through heap buffers (Vec/VecDeque/Rc allocations are byte arrays)
 # only when the array is split into per-element symbols; the default limit of 64 bytes leaves every heap read
 # symbolic even for concrete inputs.  DESIGN.md section 10.8.
